@@ -7,8 +7,8 @@ import (
 	"io"
 	iofs "io/fs"
 	"os"
-	"syscall"
 	"path/filepath"
+	"syscall"
 	"testing"
 
 	"github.com/ipfs/go-cid"
